@@ -29,3 +29,15 @@ package mime
 //@ // against exactly that contract (safety and an empty frame), so that assumption is a proved fact
 //@ use @verif/specs/stdlib.spec:stdlib
 //@ func validateExt
+
+//@ unit mime_handler frames=on props=C12 nilchecks=on filter=`mime\.Mime\)\.ServeHTTP$`
+//@ // C12: a pass-through middleware - it may set a header field, sends nothing itself, calls the next handler exactly once
+//@ // and returns exactly what that returned (status and error), so the convention holds for it whenever it holds below it
+//@ use @verif/specs/stdlib.spec:handler_chain
+//@ use @verif/specs/stdlib.spec:stdlib
+//@ extern path.Ext
+//@   pure
+//@ func (Mime).ServeHTTP
+//@   requires w != nil && r != nil && r.URL != nil && e.Next != nil
+//@   modifies ghost:nextCalls, ghost:nextRet
+//@   ensures [passes_on_once_returns_its_answer_sends_nothing] nextCalls == old(nextCalls) + 1 && result0 == nextRet && hw == old(hw) && bodyWrites == old(bodyWrites)
